@@ -141,7 +141,16 @@ def run(chk) -> None:
         refreshed = [s for s in bn if isinstance(s, ast.Assign) and ast.unparse(s.targets[0]).endswith(".shared_state")]
         from ..astx import dep_slice
         sl_ = dep_slice(sr, refreshed[0].value, stop=("this_execution",)) if refreshed else None
-        fresh = bool(refreshed) and any(".workers[" in ast.unparse(e_) and "collected_events" in ast.unparse(e_) for e_ in sl_.exprs)
+        # some `<live>.collected_events` flows into the new snapshot, <live> being the step's worker state in the reducer's state
+        # (`state.workers[…]`, directly or through a local bound to it) and not the invocation's own snapshot
+        def _live(base: ast.AST) -> bool:
+            t_ = ast.unparse(base)
+            if "shared_state" in t_:
+                return False
+            if ".workers[" in t_:
+                return True
+            return isinstance(base, ast.Name) and ".workers[" in ast.unparse(expand(base, refreshed[0], depth=3))
+        fresh = bool(refreshed) and any(isinstance(a_, ast.Attribute) and a_.attr == "collected_events" and _live(a_.value) for e_ in sl_.exprs for a_ in ast.walk(e_))
         chk.ob("C09.R3", "the re-run sees the live buffer (snapshot refreshed from the reducer state)", bool(fresh), m=mc, node=c, fn=sr, instance="rerun:fresh-snapshot", reason="shared_state is not refreshed from the live collected_events")
 
     # ---------------------------------------------------------------- R2 collect_events on all small buffers
